@@ -409,6 +409,7 @@ func init() {
 		Real:        []string{"smtp.Server.Serve/handleConn", "smtp.Conn command loop, protocolError, panic recovery", "lineLimitReader", "parseCmd and argument parsers", "net/textproto", "bufio"},
 		Stub:        []string{"net.Listener (SimListener)", "net.Conn (SimConn; counts the octets the server pulls)", "Backend/Session (SimBackend)", "clock (synctest)", "SMTP client (raw driver)", "Server.ErrorLog (recording logger)"},
 		Assumptions: []string{"only unknown verbs and lines not of the shape VERB [SP args] are used as 'unrecognised or malformed'; argument-level syntax errors are counted neither way", "an unrecovered panic kills the worker process and is reported by verifctl as a process-crash violation"},
+		Required:    []string{"endless_line_after_bdat_chunk", "limit_crossed_across_segments", "limit_crossed_inside_one_segment", "error_threshold_reached", "line_len_limit+2", "line_len_limit+0"},
 		QuickRuns:   120000, ThoroughRuns: 3000000,
 	})
 }
